@@ -209,6 +209,7 @@ func H_C10_requestWhileInitiating() {
 	// the domain of the premium arithmetic shortcut (vCheapCompute), stated once up front
 	zzverif.Assume(localAmount <= 1<<40 && peerAmount <= 1<<40 && localLimit <= 1000000 && localLimit >= -1000000)
 	zzverif.Assume(w.rates.peerPpm <= 1000000 && w.rates.peerPpm >= -1000000 && w.rates.defPpm <= 1000000 && w.rates.defPpm >= -1000000)
+	zzverif.Assume(w.rates.peerPpmIn <= 1000000 && w.rates.peerPpmIn >= -1000000 && w.rates.defPpmIn <= 1000000 && w.rates.defPpmIn >= -1000000)
 	if zzverif.Bool("local.swapout") {
 		svc.SwapOut(vPeer, chain, localScid, "initiator", localAmount, localLimit)
 	} else {
